@@ -78,8 +78,15 @@ def run(ctx):
                 ctx.sample({"program": prog})
         # spec -> code: every input of the sessions TLC explores on the model's universe (design level: theorems Closed / Prefix of MC_CAM),
         # and every strict prefix of the encodings the specification built
-        uprogs, ukw, sessions, _ = speccode.explore(ctx, focus="all", part=speccode.part_of(ctx, 32 if quick else 48))
+        uprogs, ukw, sessions, _ = speccode.explore(ctx, focus="all", part=speccode.part_of(ctx, 64 if quick else 64), faults=True)
         def on(camp, prog, con, s, idx):
+            # every stream fault of the session's first parse (design level: theorem Faults of MC_CAM)
+            data = bytes(s["data"])
+            ic, c = camp.parse(prog, con, data, 0, ukw, fault={"k": 0, "mode": "none"}, tag="clean")
+            for mode in MODES:
+                for k in (range(1, min(c["ops"], 6 if quick else 10) + 1) if mode in ("raise", "short") else [0]):
+                    ifl, f = camp.parse(prog, con, data, 0, ukw, fault={"k": k, "mode": mode}, tag="fault")
+                    camp.sh.session("C06.fault", [ic, ifl])
             b = idx["calls"].get("build")
             if b is not None and b["res"]["ok"]:
                 out = bytes(b["res"]["v"]["b"])
